@@ -64,3 +64,49 @@ def list_lengths(mode, pats, kwargs):
     t = m.translate(pats, **kwargs)
     c = m.compile(pats, **kwargs)._matcher
     return [[len(t[0]), len(t[1])], [len(c._include), len(c._exclude or ())]]
+
+
+def _enc(p):
+    if isinstance(p, list):
+        return [x.encode('latin-1') for x in p]
+    return p.encode('latin-1') if p is not None else None
+
+
+def bytes_str_agree(mode, pats, kwargs, name=None):
+    """The bytes call and the str call agree: translate (encoded), escape, is_magic, and the match verdict on `name`
+    (given as bytes; the str name is its Latin-1 decoding)."""
+    m = _mod(mode)
+    kb = dict(kwargs)
+    if kb.get('exclude') is not None:
+        kb['exclude'] = _enc(kb['exclude'])
+
+    def call(f, *a, **k):
+        try:
+            return ('ok', f(*a, **k))
+        except Exception as e:  # noqa: BLE001
+            return ('exc', type(e).__name__)
+    ts, tb = call(m.translate, pats, **kwargs), call(m.translate, _enc(pats), **kb)
+    if ts[0] != tb[0] or (ts[0] == 'exc' and ts[1] != tb[1]):
+        return False
+    for single in (pats if isinstance(pats, list) else [pats]):
+        if m.escape(single).encode('latin-1') != m.escape(single.encode('latin-1')):
+            return False
+        if m.is_magic(single, flags=kwargs.get('flags', 0)) != m.is_magic(single.encode('latin-1'), flags=kwargs.get('flags', 0)):
+            return False
+    if ts[0] == 'ok' and all(ord(c) < 128 for c in ''.join(pats if isinstance(pats, list) else [pats])):
+        enc = ([x.encode('latin-1') for x in ts[1][0]], [x.encode('latin-1') for x in ts[1][1]])
+        txt = repr(ts[1]) + repr(tb[1])
+        if (enc[0] != list(tb[1][0]) or enc[1] != list(tb[1][1])) and '\\U0010ffff' not in txt and '\\xff' not in txt and 'ÿ' not in txt:
+            return False
+    if name is not None:
+        fn = getattr(m, 'fnmatch' if mode == 'fn' else 'globmatch')
+        a = call(fn, name.decode('latin-1'), pats, **kwargs)
+        b = call(fn, name, _enc(pats), **kb)
+        if a != b:
+            return False
+    return True
+
+
+def mixed_type_failures():
+    from props.c18 import mixed_type_cases
+    return mixed_type_cases()
